@@ -33,13 +33,13 @@ Proof.
     specialize (IH (set_queue p (l_put (p_queue p) t)) Hd').
     cbn zeta in IH. cbn [p_queue set_queue p_chain p_pending p_all p_nonces] in IH.
     destruct IH as [H1 [H2 [H3 [H4 [H5 H6]]]]].
-    { intros u Hu x Hx. apply l_put_In in Hx. destruct Hx as [->|[Hx _]].
+    { intros u Hu x Hx. apply l_put_In in Hx. destruct Hx as [-> |[Hx _]].
       - intros Hk. apply Hn. rewrite Hk. apply in_map. auto.
       - apply Hf; cbn; auto. }
     repeat split; auto.
     + intros Hx. apply H5 in Hx. destruct Hx as [Hx|Hx]; [left; right; auto|].
-      apply l_put_In in Hx. destruct Hx as [->|[Hx _]]; [left; left; auto|right; auto].
-    + intros [[->|Hx]|Hx]; apply H5.
+      apply l_put_In in Hx. destruct Hx as [-> |[Hx _]]; [left; left; auto|right; auto].
+    + intros [[-> |Hx]|Hx]; apply H5.
       * right. apply l_put_In. auto.
       * left. auto.
       * right. apply l_put_In. right. split; auto. apply Hf; cbn; auto.
@@ -356,9 +356,9 @@ Proof.
   - apply l_put_nodup. apply (inv_kp _ p I).
   - apply (inv_kq _ p I).
   - intros x. rewrite all_add_In, all_remove_In, (inv_idx _ p I), l_put_In. cbn [In]. split.
-    + intros [[[Hx|[Hx|[]]] Hne]|->]; auto. left. right. split; auto.
+    + intros [[[Hx|[Hx|[]]] Hne]| ->]; auto. left. right. split; auto.
       intros Hk. apply Hne. f_equal. eapply NoDup_map_inj; [apply (inv_kp _ p I)| | |]; eauto. congruence.
-    + intros [[->|[Hx Hk]]|[Hx|[]]]; auto; left; split; auto.
+    + intros [[-> |[Hx Hk]]|[Hx|[]]]; auto; left; split; auto.
       * intros He. assert (x = o) by (eapply (inv_id_inj _ p I); auto; apply (inv_idx _ p I); auto).
         subst. congruence.
       * intros He. assert (x = o) by (eapply (inv_id_inj _ p I); auto; apply (inv_idx _ p I); auto).
@@ -368,7 +368,7 @@ Proof.
     + intros x Hx. apply all_remove_In in Hx. apply Hfresh. tauto.
   - intros a n. unfold pn_get. cbn [p_nonces p_chain set_all set_pending].
     fold (pn_get p a). rewrite <- (inv_run _ p I). split.
-    + intros [x [Hx [Hs Hn]]]. apply l_put_In in Hx. destruct Hx as [->|[Hx _]]; [|eauto].
+    + intros [x [Hx [Hs Hn]]]. apply l_put_In in Hx. destruct Hx as [-> |[Hx _]]; [|eauto].
       exists o. unfold key in Hko'. inversion Hko'. repeat split; auto; congruence.
     + intros [x [Hx [Hs Hn]]]. destruct (N.eq_dec (sender x) (sender t)) as [E1|E1];
         [destruct (Z.eq_dec (t_nonce x) (t_nonce t)) as [E2|E2]|].
@@ -377,7 +377,7 @@ Proof.
       * exists x. split; auto. apply l_put_In. right. split; auto. unfold key. intros Hk; inversion Hk; auto.
   - intros a. apply (inv_pn _ p I).
   - intros x Hx. apply (inv_q _ p I x Hx).
-  - intros x Hx. apply l_put_In in Hx. destruct Hx as [->|[Hx _]]; auto. apply (inv_aff _ p I). auto.
+  - intros x Hx. apply l_put_In in Hx. destruct Hx as [-> |[Hx _]]; auto. apply (inv_aff _ p I). auto.
 Qed.
 
 Lemma inv_enqueue_new p t b :
@@ -401,18 +401,18 @@ Proof.
     destruct (l_get (p_queue p) (sender t) (t_nonce t)) as [o|] eqn:Eq.
     + apply l_get_some in Eq. destruct Eq as [Hino Hko].
       rewrite all_remove_In, (inv_idx _ p I). cbn [In]. split.
-      * intros [[[Hx|[Hx|[]]] Hne]|->]; auto. right. left. right. split; auto.
+      * intros [[[Hx|[Hx|[]]] Hne]| ->]; auto. right. left. right. split; auto.
         intros Hk. apply Hne. f_equal. eapply NoDup_map_inj; [apply (inv_kq _ p I)| | |]; eauto.
         unfold key in *. congruence.
-      * intros [Hx|[[->|[Hx Hk]]|[]]]; auto; left; split; auto.
+      * intros [Hx|[[-> |[Hx Hk]]|[]]]; auto; left; split; auto.
         -- intros He. assert (x = o) by (eapply (inv_id_inj _ p I); auto; apply (inv_idx _ p I); auto).
            subst. eapply (inv_disjoint _ p I); eauto.
         -- intros He. assert (x = o) by (eapply (inv_id_inj _ p I); auto; apply (inv_idx _ p I); auto).
            subst. apply Hk. exact Hko.
     + rewrite (inv_idx _ p I). cbn [In]. split.
-      * intros [[Hx|[Hx|[]]]|->]; auto. right. left. right. split; auto.
+      * intros [[Hx|[Hx|[]]]| ->]; auto. right. left. right. split; auto.
         eapply l_get_none; eauto.
-      * intros [Hx|[[->|[Hx Hk]]|[]]]; auto.
+      * intros [Hx|[[-> |[Hx Hk]]|[]]]; auto.
   - apply all_add_ids.
     + destruct (l_get (p_queue p) (sender t) (t_nonce t)); [apply all_remove_ids|]; apply (inv_ids _ p I).
     + intros x Hx. apply Hfresh. destruct (l_get (p_queue p) (sender t) (t_nonce t)); auto.
@@ -420,7 +420,7 @@ Proof.
   - intros a n. apply (inv_run _ p I).
   - intros a. apply (inv_pn _ p I).
   - intros x Hx. unfold pn_get. cbn [p_nonces p_chain set_all set_queue]. fold (pn_get p (sender x)).
-    apply l_put_In in Hx. destruct Hx as [->|[Hx _]]; auto. apply (inv_q _ p I x Hx).
+    apply l_put_In in Hx. destruct Hx as [-> |[Hx _]]; auto. apply (inv_q _ p I x Hx).
   - intros x Hx. apply (inv_aff _ p I x Hx).
 Qed.
 
@@ -450,7 +450,7 @@ Proof.
     apply l_add_result in Ea. destruct Ea as [[-> [-> ->]]|[-> [-> ->]]].
     { intros H; inversion H; subst; auto. }
     rewrite Egp. intros H; inversion H; subst p' r e. clear H. split.
-    + eapply Inv_core; [|eapply (inv_replace_pending p1 t o0 is_local); eauto; rewrite ?Hch, Hsender; auto].
+    + eapply Inv_core; [|eapply (inv_replace_pending p1 t o0 is_local); eauto; rewrite ?Hch, ?Hsender; auto].
       rewrite core_journal_tx, core_priced_put. unfold core, priced_removed, reheap.
       cbn [p_chain p_pending p_queue p_all p_nonces set_all set_pending]. destruct (_ <=? _); reflexivity.
     + unfold journal_tx, priced_put, priced_removed, reheap. destruct_ifs; cbn; auto.
@@ -459,7 +459,7 @@ Proof.
     apply l_add_result in Ea. destruct Ea as [[-> [-> ->]]|[-> [-> ->]]].
     { intros H; inversion H; subst; auto. }
     intros H; inversion H; subst p' r e. clear H. split.
-    + eapply Inv_core; [|eapply (inv_enqueue_new p1 t is_local); eauto; rewrite ?Hch, Hsender; auto].
+    + eapply Inv_core; [|eapply (inv_enqueue_new p1 t is_local); eauto; rewrite ?Hch, ?Hsender; auto].
       rewrite core_journal_tx.
       unfold core, priced_put, priced_removed, reheap.
       destruct (l_get (p_queue p1) (sender t) (t_nonce t));
